@@ -131,7 +131,9 @@ Fixpoint read_normal_loop (fuel : nat) (ls : list line) (acc : list (chunk line)
               if negb (llen ys =? read_normal_want_add rlo rhi) && is_ac then RErr ECount
               else if negb (llen xs =? read_normal_want_del llo lhi) && is_cd then RErr ECount
               else read_normal_loop f rest'
-                     (acc ++ [mkChunk [mkEdit o xs ys] llo lhi rlo rhi])
+                     (acc ++ [mkChunk [mkEdit o xs ys]
+                                (read_normal_chunk_lstart llo lhi rlo rhi) (read_normal_chunk_lend llo lhi rlo rhi)
+                                (read_normal_chunk_rstart llo lhi rlo rhi) (read_normal_chunk_rend llo lhi rlo rhi)])
             end
           end
         end
@@ -186,7 +188,7 @@ Fixpoint read_uchunk_body (ls : list line) (es : list (edit line))
   end.
 
 (* F5: the count that an omitted count stands for; F6 repaired: "s,0" is the empty range after
-   line s, i.e. [s+1, s+1) *)
+   line s, i.e. it starts at s+1.  Result: (start, count) *)
 Definition omitted_count (v : variant) : Z :=
   if uspan_omitted_count_zero v then parse_span_omitted_hi else 1.
 
@@ -195,8 +197,13 @@ Definition read_uspan (v : variant) (tag s : bytes) : option (Z * Z) :=
   | None => None
   | Some (lo, n) =>
     let lo' := if negb (uspan_empty_names_next_line v) && (n =? 0) then lo + 1 else lo in
-    Some (lo', lo' + n)
+    Some (lo', n)
   end.
+
+(* ch := &Chunk{LStart: llo, LEnd: llo + lhi, RStart: rlo, REnd: rlo + rhi} *)
+Definition uchunk_of (es : list (edit line)) (llo lhi rlo rhi : Z) : chunk line :=
+  mkChunk es (read_uchunk_lstart llo lhi rlo rhi) (read_uchunk_lend llo lhi rlo rhi)
+             (read_uchunk_rstart llo lhi rlo rhi) (read_uchunk_rend llo lhi rlo rhi).
 
 Inductive uchunk_res :=
 | UEof                                               (* io.EOF before a chunk header *)
@@ -216,14 +223,14 @@ Definition read_uchunk (v : variant) (ls : list line) : uchunk_res :=
     then UErr EHeader else
     match read_uspan v s_minus (nth_field parts 1) with
     | None => UErr ESpan
-    | Some (ls_, le) =>
+    | Some (llo, lhi) =>
       match read_uspan v s_plus (nth_field parts 2) with
       | None => UErr ESpan
-      | Some (rs, re) =>
+      | Some (rlo, rhi) =>
         match read_uchunk_body rest [] with
         | (BodyBlank, _, _) => UErr EBlank
-        | (BodyUnexpected, es, rest') => UUnexpected (mkChunk es ls_ le rs re) rest'
-        | (_, es, rest') => UChunk (mkChunk es ls_ le rs re) rest'
+        | (BodyUnexpected, es, rest') => UUnexpected (uchunk_of es llo lhi rlo rhi) rest'
+        | (_, es, rest') => UChunk (uchunk_of es llo lhi rlo rhi) rest'
         end
       end
     end
